@@ -198,6 +198,15 @@ pub fn run(ctx: &Ctx, out: &mut Out) {
                     out.count(&format!("{}_{}_{}", name, mode, kind));
                     let label = format!("{} {} #{} | {} | goal {{ {} }}", name, mode, k, text.replace('\n', " | "), gtext);
                     if let Err(site) = &r {
+                        if name == "recursive" && site.contains("overflow depth reached") {
+                            // the recursive solver's documented behaviour beyond its overflow depth
+                            // (polymorphically recursive field types); resource limits are C09's
+                            out.count("recursive_overflow_panic");
+                            if mode == "shared" {
+                                shared_dead = true;
+                            }
+                            continue;
+                        }
                         let cls = if site.contains("Negative subgoal had delayed_subgoals") {
                             "slg_negative_subgoal_delayed_panic".to_string()
                         } else if site == BUDGET_PANIC {
@@ -209,10 +218,9 @@ pub fn run(ctx: &Ctx, out: &mut Out) {
                                 // constructors (`struct S5<P0> { f0: S2<S4<P0>> }`): polymorphic recursion,
                                 // the set of types reachable through fields is infinite (F35)
                                 "auto-growing"
-                            } else if mode == "shared" {
-                                "auto-shared"
                             } else {
-                                "auto-fresh"
+                                // F32 shows on auto-trait programs too: the shape of the struct graph
+                                shape
                             })
                         } else {
                             format!("{}_panic", name)
